@@ -89,6 +89,21 @@ def cells():
                 out.append(("reserved-keyword/%s/%s/%s" % (name, kind, dname), ("call", "TypeError"), stages))
                 stages = [("definition", lambda _, mk=mk: mk()), ("call", lambda f, k=kind: call(f, k, 1, other=2))]
                 out.append(("twin:reserved-keyword/%s/%s/%s" % (name, kind, dname), (None, None), stages))
+    # 2a. the same for a function WITHOUT **kwargs: the reserved keyword is reported before any condition is evaluated
+    # (a condition that is evaluated with the shadowed placeholder shows up as its own exception)
+    class ConditionEvaluated(Exception):
+        pass
+
+    def must_not_run():
+        raise ConditionEvaluated("a condition was evaluated although the call passes a reserved keyword")
+
+    for name in ("_ARGS", "_KWARGS"):
+        for kind in FUNC_KINDS:
+            for dname in ("require", "ensure"):
+                def mk_nk(dname=dname, kind=kind):
+                    return getattr(icontract, dname)(must_not_run)(define("x", kind))
+                out.append(("reserved-keyword-no-varkw/%s/%s/%s" % (name, kind, dname), ("call", "TypeError"),
+                            [("definition", lambda _, mk=mk_nk: mk()), ("call", lambda f, k=kind, n=name: call(f, k, 1, **{n: 2}))]))
     # 2b. the reserved keyword in a RE-ENTRANT call (made by the function's own condition while it is being checked)
     for name in ("_ARGS", "_KWARGS"):
         for kind in ("function", "async"):
